@@ -107,7 +107,7 @@ def run(ctx):
                 r.inst({"unknown_encoding_edge": "returns Err, builds no decoder" if ok else f"builds {builds}"}, ok)
                 if not ok:
                     r.violate(fn.id, "unknown-encoding", f"an encoding not handled explicitly still constructs {builds}", rec["file"], t[5])
-    return [r, rule_carry(facts), rule_cursor(facts, "C10-CURSOR", ["glaredb_ext_parquet"], 8), rule_dictfresh(facts), rule_sibarms(facts)]
+    return [r, rule_carry(facts), rule_cursor(facts, "C10-CURSOR", ["glaredb_ext_parquet"], 8), rule_dictfresh(facts), rule_sibarms(facts), rule_bitpos(facts)]
 
 
 def rule_carry(facts):
@@ -221,13 +221,59 @@ def rule_sibarms(facts):
                           "columns of the same encoding are decoded differently", rec["file"], t[5] if len(t) > 5 else rec["line"])
     return r
 
+
+def rule_bitpos(facts):
+    """The RLE / bit-packed hybrid decoder (definition and repetition levels, dictionary indices, booleans) is read in pieces: a page is
+    usually larger than what is left of the current output batch. A read may stop in the middle of a byte of a literal run, so the
+    sub-byte position has to survive the call: `bit_unpack` works on a temporary state whose `bit_pos` is loaded from the decoder before
+    the call and stored back after it. Pairing rule on RleBitPackedDecoder::read: (a) an assignment of the temporary state's bit_pos from
+    a field of self reaches the bit_unpack call, (b) an assignment of a field of self from the temporary state's bit_pos is reachable
+    from it."""
+    from .mir import Fn
+    r = RuleResult("C10-BITPOS", "the RLE/bit-packed decoder carries the sub-byte position of a literal run across read() calls", floor=1)
+    recs = facts.fns_matching(lambda i: "rle_bit_packed::RleBitPackedDecoder" in i and i.endswith("::read"))
+    if not recs:
+        r.missing_anchor("RleBitPackedDecoder::read")
+        return r
+    for rec in recs:
+        fn = Fn(rec)
+        calls = [c for c in fn.calls() if c.name.endswith("bitutil::bit_unpack") or c.name.endswith("::bit_unpack")]
+        if not calls:
+            continue
+        r.functions.add(fn.id)
+        loads, stores = [], []
+        for b, i, pl, rv, ln in fn.assigns():
+            pproj = pl[1] if len(pl) > 1 else []
+            to_state = any(isinstance(p_, list) and p_[0] == "f" and p_[1] == "bit_pos" and p_[2].endswith("BitUnpackState") for p_ in pproj)
+            to_self = any(isinstance(p_, list) and p_[0] == "f" and p_[2].endswith("RleBitPackedDecoder") for p_ in pproj)
+            if rv[0] != "use" or rv[1][0] not in ("c", "m"):
+                continue
+            o = str(fn.origin(rv[1], at=b))
+            if to_state and "RleBitPackedDecoder" in o and "'arg'" in o[:8]:
+                loads.append(b)
+            if to_self and "'bit_pos'" in o and "BitUnpackState" in o:
+                stores.append(b)
+        for c in calls:
+            a = any(c.bb in fn.reachable_from(l) or l == c.bb for l in loads)
+            b_ = any(s_ in fn.reachable_from(c.bb) for s_ in stores)
+            ok = a and b_
+            r.call_sites += 1
+            r.inst({"fn": fn.id, "line": c.line, "position_loaded_from_decoder": a, "position_stored_back": b_}, ok)
+            if not ok:
+                r.violate(fn.id, "bit-position-not-carried", f"bit_unpack at line {c.line} runs on a fresh state each time: a read() that stops inside a byte of a literal run resumes at "
+                          "bit 0 of that byte, re-decodes delivered values and shifts the rest of the run (wrong NULL positions / dictionary indices)", rec["file"], c.line)
+    if not r.instances:
+        r.missing_anchor("RleBitPackedDecoder::read: no bit_unpack call")
+    return r
+
 CLAIM = {
     "text": "Table-agreement rule on MIR: the (encoding, physical type) reachability of every PageDecoder construction site, derived from the "
             "dominating discriminant switches and equality tests, is compared with the Parquet specification's encoding table and with the "
             "decoder's width. This is decidable from code shape for every file; whether the decoders compute the right values is not decided. "
             "Plus a resumability rule: a decoder field with a loop-carried update that is read inside the per-value loop is not re-initialised "
             "between the entry of `read` and the loop (decoding does not depend on how values are split over read calls). Plus the chunked-read cursor pairing of the column reader: a loop that subtracts the amount it hands to a page decoder from its remaining count advances the offset argument by the same amount. And every path that loads a dictionary page and marks the NULL slot first replaces the dictionary array or its validity."
-            " Plus SIBARMS: the HasDefinitions and NoDefinitions arms of every page decoder perform the same state-mutating calls.",
+            " Plus SIBARMS: the HasDefinitions and NoDefinitions arms of every page decoder perform the same state-mutating calls."
+            " Plus BITPOS: the RLE/bit-packed decoder carries the sub-byte position of a literal run across read() calls.",
     "note": "trusted: rustc MIR; the specification table in rules/c10.py (Parquet format encodings page)",
     "technique": "static analysis: MIR reachability under discriminant constraints vs. a specification table (rustc_private driver)",
 }
